@@ -15,25 +15,25 @@ Proof.
   intros uns v Ht Hv. apply cell_ok_all; assumption.
 Qed.
 
-Theorem rows_roundtrip_all c v h cols t r crc :
+Theorem rows_roundtrip_all c v h cols pt t r crc :
   wf_cfg c = true -> nonjson_cols cols -> wf_rows_def cols r ->
   map fst (td_cols t) = map fst cols ->
   h_type h = rows_type c (rd_kind r) ->
   (do ev <- strip_checksum56 (expect_format c v) (enc_ev c h (enc_rows_body c (map fst cols) r) crc);
-   ev_rows (expect_format c v) (expect_table_map t) ev) = Ok (expect_rows (map fst cols) r).
+   ev_rows (expect_format c v) (expect_table_map pt t) ev) = Ok (expect_rows c (map fst cols) r).
 Proof.
   intros Wc P Wr E Hh.
   apply (rows_roundtrip_tm (fun _ _ => []) (fun _ => 0) (fun _ => Err EJson)); auto.
   apply nonjson_cols_family; [intros; lia|exact P].
 Qed.
 
-Theorem image_consumed_all ffmt tz jsonp tm ti specs img rest :
+Theorem image_consumed_all pc pn ffmt tz jsonp tm ti specs img rest :
   (forall v, -86400 <= tz v <= 86400) -> nonjson_cols (specs_cols specs) ->
   tm_types tm = map (fun s => code_of (cs_type s)) specs ->
   tm_meta tm = map (fun s => meta_of (cs_type s)) specs ->
   ti_cols ti = map (fun s => (cs_name s, cs_uns s)) specs ->
   wf_image (specs_cols specs) (present_bits img) img = true ->
-  image_of ffmt tz jsonp tm ti (expect_bitmap (present_bits img)) (expect_bitmap (null_bits img))
+  image_of ffmt tz jsonp tm ti (expect_bitmap pc (present_bits img)) (expect_bitmap pn (null_bits img))
            (Some (image_cells (map cs_type specs) img ++ rest))
   = Ok (Some (expect_columns ffmt tz specs img)).
 Proof.
